@@ -13,7 +13,10 @@ use crate::{
 };
 use crossbeam_channel::{tick, RecvError};
 use std::collections::hash_map::RandomState;
+#[cfg(not(all(transparencies_stretto_verif, kani)))]
 use std::collections::HashMap;
+#[cfg(all(transparencies_stretto_verif, kani))]
+use crate::verif_kmap::HashMap;
 use std::hash::{BuildHasher, Hash};
 use std::marker::PhantomData;
 use std::sync::atomic::{AtomicBool, Ordering};
@@ -714,3 +717,7 @@ impl_builder!(CacheBuilder);
 impl_cache!(Cache, CacheBuilder, Item);
 impl_cache_processor!(CacheProcessor, Item);
 impl_cache_cleaner!(CacheCleaner, CacheProcessor, Item);
+
+#[cfg(all(transparencies_stretto_verif, any(kani, test)))]
+#[path = "/verif/harness/h_cache_sync.rs"]
+mod verif_harness;
